@@ -59,6 +59,25 @@ Theorem C04_integral_cost_lower_bound :
     forall cmin (p : list (pt RA S)), (0 <= cmin)%R -> Forall (fun s => (cmin <= snd s)%R) p ->
       (cmin * plen S d (map fst p) <= cost_integral RA S d p)%R.
 Proof. exact cost_integral_lower_bound. Qed.
+(* mechanical work (only positive changes of the state cost accrue, plus weight x length): the cost of a path is never below
+   weight x path length, never below its net climb plus weight x path length, hence in a metric space never below
+   max(c(last) - c(first), 0) + weight x direct distance — the admissible lower bound for a query *)
+Theorem C04_work_cost_lower_bounds :
+  forall (S : Type) (d : S -> S -> R), (forall x y, (0 <= d x y)%R) ->
+    forall w (p : list (pt RA S)) (s0 : pt RA S), (0 <= w)%R ->
+      (w * plen S d (map fst (s0 :: p)) <= cost_work RA S d w (s0 :: p))%R /\
+      ((snd (last p s0) - snd s0) + w * plen S d (map fst (s0 :: p)) <= cost_work RA S d w (s0 :: p))%R.
+Proof. exact cost_work_lower_bounds. Qed.
+Theorem C04_work_cost_admissible_bound :
+  forall (S : Type) (d : S -> S -> R), (forall x, d x x = 0%R) -> (forall x y z, (d x z <= d x y + d y z)%R) -> (forall x y, (0 <= d x y)%R) ->
+    forall w (p : list (pt RA S)) (s0 : pt RA S), (0 <= w)%R ->
+      (Rmax (snd (last p s0) - snd s0) 0 + w * d (fst s0) (fst (last p s0)) <= cost_work RA S d w (s0 :: p))%R.
+Proof. exact cost_work_admissible_bound. Qed.
+(* its motion cost depends on the direction of the motion (so the objective must not claim to be symmetric: planners that
+   rewire reuse the cost of the opposite motion for symmetric objectives) *)
+Theorem C04_work_motion_cost_is_directional :
+  forall w, work_motion RA unit (fun _ _ => 1%R) w (tt, 0%R) (tt, 1%R) <> work_motion RA unit (fun _ _ => 1%R) w (tt, 1%R) (tt, 0%R).
+Proof. exact work_motion_not_symmetric. Qed.
 (* minimax objectives: the path cost is the worst state cost evaluated along any motion, both end states of every
    motion included (or the identity cost): the maximum for MinimaxObjective, the minimum for max-min clearance *)
 Theorem C04_minimax_cost_is_max :
@@ -82,6 +101,9 @@ Print Assumptions C04_best_never_worse.
 Print Assumptions C04_path_length_ge_direct_distance.
 Print Assumptions C04_length_cost_is_path_length.
 Print Assumptions C04_integral_cost_lower_bound.
+Print Assumptions C04_work_cost_lower_bounds.
+Print Assumptions C04_work_cost_admissible_bound.
+Print Assumptions C04_work_motion_cost_is_directional.
 Print Assumptions C04_minimax_cost_is_max.
 Print Assumptions C04_clearance_cost_is_min.
 
